@@ -42,7 +42,8 @@ block = ('<!-- SEEDS -->\n### Seeded changes (independent sub-agents, property t
          'with `tools/seedcheck.py` (scratch worktree + `VERIF_REPO=<worktree> ./check <ID>`); `tools/seedsweep.py` re-runs all of them against '
          'the current machinery. Rounds: k=1,2 obvious edits in the anchored code; k=3,4 less central paths; k=5,6 code OUTSIDE the anchored '
          'functions that the guarantee depends on; k=9,10 cooperating edits / error handling / boundaries; k=11,12 well-meant '
-         'improvements; k=15,16 coverage-guided (behaviour no existing test touches). "input" = VIOLATION with a concrete failing input, "no-input" = VIOLATION ... '
+         'improvements; k=15,16 coverage-guided (behaviour no existing test touches); `<prop>-M<id>` = a surviving mutant of the mutation '
+         'sweep that a triage sub-agent showed to break the property (mutation/TRIAGE.md). "input" = VIOLATION with a concrete failing input, "no-input" = VIOLATION ... '
          'no-failing-input-found, "MISSED" = the check stayed quiet.\n\n'
          '| seed | change | needs | first run | now |\n|---|---|---|---|---|\n' + '\n'.join(rows) + '\n\n'
          '### Harmless refactorings (false-alarm test)\n\n'
